@@ -6,8 +6,7 @@ set -u
 PATCH="$(realpath "$1")"; shift
 D=$(mktemp -d /tmp/mut-XXXXXX)
 mkdir -p "$D/repo"
-cp -r /repo/nmea2000 /repo/canboat.json "$D/repo/"
-rm -rf "$D/repo/nmea2000/__pycache__"
+rsync -a --exclude .git --exclude __pycache__ --exclude dumps --exclude tests /repo/ "$D/repo/"
 ( cd "$D/repo" && patch -p1 -s < "$PATCH" ) || { echo "PATCH FAILED"; rm -rf "$D"; exit 3; }
 cd "$(dirname "$0")/.."
 mkdir -p .scratch/mut
